@@ -92,7 +92,7 @@ UrlSecure(d) == TX!Chars(d) \cap {"\"", "\r", "\n"} = {}
 
 \* HrefRaw as coded today.  When the fix proposed in findings/C13.proposed.json (html.escape(url) at the top of both
 \* getrenderstr) is committed, set HrefXf to "esc": the six sites become escaping sites and HrefRawSites empties.
-HrefXf == "raw"
+HrefXf == "esc"
 
 S(ctx, xf) == [ctx |-> ctx, xf |-> xf]
 SiteTab == [
